@@ -1,4 +1,9 @@
 mod directed;
+mod api;
+mod api_app;
+mod api_app2;
+mod api_gen;
+mod api_transport;
 mod entropy;
 mod exec;
 mod gen;
@@ -37,6 +42,16 @@ fn wire_harness(spec: &RunSpec) -> RunOutput {
         },
         None => gen::gen_wire_plan(spec.prop, spec.seed, spec.tier),
     };
+    if spec.plan_only {
+        return RunOutput {
+            violations: vec![],
+            harness_error: None,
+            stats: RunStats::default(),
+            choices: vec![],
+            trace: vec![],
+            plan: plan.to_json(),
+        };
+    }
     let res = wire::run_wire(&plan, spec.choices.clone(), spec.tracing);
     RunOutput {
         violations: res.violations,
@@ -88,6 +103,34 @@ const WIRE_ASSUME: &[&str] = &[
     "for requests of a connection whose task was dropped, the model mirrors the broker's reply-before-effect order",
     "broker built with features statistics + verif-hooks, without introspection (stub introspection handlers)",
 ];
+
+const API_REAL: &[&str] = &[
+    "aldrin::ClientBuilder, Client (run, select, drain), Handle and every client-side type (Object, low_level::{Service, Call, Promise, Proxy, Event, PendingReply}, channel types in all six states, BusListener, Discoverer, LifetimeScope, Lifetime)",
+    "aldrin_broker::Broker, BrokerHandle, Acceptor, Connection",
+    "aldrin_core::channel::{Bounded, Unbounded} transports, transport::Buffered, message types, value codec and converter",
+];
+const API_STUB: &[&str] = &[
+    "applications: interpreted random programs, server / producer / consumer tasks",
+    "transport wrapper Faulty (operation counter, fault injection, Pending injection, Connect2 version clamp) and, for some clients, the simulated pipe",
+    "entropy: uuid stream (hook H1), RandomState keys (getrandom interposition)",
+];
+const API_ASSUME: &[&str] = &[
+    "transports are reliable and ordered",
+    "older client versions are emulated by clamping the minor version in the client's Connect2 (Client gates its behaviour on the negotiated version)",
+    "refusals by the broker (InvalidService, InvalidChannel, ...) are legitimate outcomes of racing programs and are not judged at this level; the broker-side model comparison runs alongside",
+];
+
+fn c05_harness(spec: &RunSpec) -> RunOutput {
+    let api = match &spec.plan {
+        Some(p) => p["harness"].as_str() == Some("api"),
+        None => spec.index % 4 == 3,
+    };
+    if api {
+        api::api_harness(spec)
+    } else {
+        wire_harness(spec)
+    }
+}
 
 fn prop_cfg(prop: Prop) -> Option<PropCfg> {
     let wire = |nontrivial: fn(&RunStats) -> bool, rule: &'static str, level: &'static str| PropCfg {
@@ -189,6 +232,24 @@ fn prop_cfg(prop: Prop) -> Option<PropCfg> {
             "connections of every version 1.14-1.20 (and requests outside the range) running the mixed profile; non-trivial when a payload crossed epochs, a version gate closed a connection, a handshake was refused or a call/abort was down-translated; distinct = distinct broker linearisation signatures",
             "exploration",
         ),
+        Prop::C06 | Prop::C15 | Prop::C19 => {
+            let (rule, level): (&'static str, &'static str) = match prop {
+                Prop::C06 => ("2-4 real clients (versions 1.14-1.20, unbounded / bounded(1,2,4,16) core::channel transports or the simulated pipe) each running 1-3 application tasks that interpret random closed programs over the public API (objects, services with server tasks, proxies, calls awaited/dropped/cancelled, events, channels in every state incl. unbind/bind/claim, sessions with producer and consumer, bus listeners, discoverers, lifetimes, sync); non-trivial when the broker processed more than 20 requests; distinct = distinct broker linearisation signatures", "exploration"),
+                Prop::C15 => ("the C06 programs plus one termination of a victim client per run: transport error or EOF injected at transport operation index k (k = a per-run fraction of the victim's operation count in a fault-free execution of the same plan), or Handle::shutdown / all handles dropped / broker shutdown / shutdown_connection applied when the victim's transport has performed k operations; 12 (quick) or 96 (thorough) (cause, k, schedule) variants per generated program; non-trivial when the broker processed more than 20 requests; distinct = distinct broker linearisation signatures", "fault_enumeration"),
+                _ => ("mutator tasks create/destroy objects and services over 3x3 UUID pools (re-creation under the same UUID, partial service sets) while observer tasks run discoverers with 1-3 entries of all four kinds, restart them, consume events at random rates, and use find_object / wait_for_object / lifetime scopes; views are compared with the bus state at quiescence; non-trivial when the broker processed more than 20 requests; distinct = distinct broker linearisation signatures", "exploration"),
+            };
+            PropCfg {
+                harness: api::api_harness,
+                nontrivial: |st| st.nontrivial,
+                rule,
+                level,
+                quick: (40_000, 25.0),
+                thorough: (3_000_000, 480.0),
+                components_real: API_REAL,
+                components_stub: API_STUB,
+                assumptions: API_ASSUME,
+            }
+        }
         Prop::C14 => PropCfg {
             harness: io::io_harness,
             nontrivial: |st| st.nontrivial,
@@ -419,9 +480,11 @@ fn cmd_replay(path: &str) -> i32 {
         tier,
         seed,
         index: doc["run_index"].as_u64().unwrap_or(0),
+        batch_seed: 0,
         plan: Some(doc["plan"].clone()),
-        choices: Some(choices),
+        choices: if choices.is_empty() { None } else { Some(choices) },
         tracing: true,
+        plan_only: false,
     };
     let res = runner::execute(cfg.harness, spec);
     if let Some(e) = res.harness_error {
@@ -435,7 +498,7 @@ fn cmd_replay(path: &str) -> i32 {
     let want_hash = doc["trace_hash"].as_str().unwrap_or("");
     let got_hash = format!("{:016x}", res.stats.trace_hash);
     match res.violations.iter().find(|v| v.rule == want_rule) {
-        Some(v) if got_hash == want_hash => {
+        Some(v) if got_hash == want_hash || want_rule == "liveness.poll-never-returns" => {
             println!("reproduced: rule={} trace_hash={}", v.rule, got_hash);
             println!("detail: {}", v.detail);
             println!("VIOLATION property={} replay={}", prop.name(), path);
@@ -460,7 +523,7 @@ fn cmd_selftest_determinism(opts: &std::collections::HashMap<String, String>) ->
     let n: u64 = opts.get("seeds").and_then(|s| s.parse().ok()).unwrap_or(200);
     let base: u64 = opts.get("seed").and_then(|s| s.parse().ok()).unwrap_or(1);
     let mut bad = 0;
-    let props = [Prop::C02, Prop::C03, Prop::C04, Prop::C05, Prop::C09, Prop::C10, Prop::C11, Prop::C12, Prop::C14];
+    let props = [Prop::C02, Prop::C03, Prop::C04, Prop::C05, Prop::C06, Prop::C09, Prop::C10, Prop::C11, Prop::C12, Prop::C14, Prop::C15, Prop::C19];
     let mut table = Vec::new();
     for prop in props {
         let Some(cfg) = prop_cfg(prop) else { continue };
@@ -471,9 +534,11 @@ fn cmd_selftest_determinism(opts: &std::collections::HashMap<String, String>) ->
                 tier: Tier::Quick,
                 seed,
                 index: i,
+                batch_seed: base,
                 plan: None,
                 choices: None,
                 tracing: true,
+                plan_only: false,
             };
             let a = runner::execute(cfg.harness, spec.clone());
             let b = runner::execute(cfg.harness, spec);
